@@ -60,7 +60,7 @@ func heuristicFreshness(h http.Header, date time.Time) time.Duration {
 		return 0
 	}
 	delta := date.Sub(lastMod)
-	return time.Duration(float64(delta) * 0.1).Round(time.Second)
+	return (delta / 10).Truncate(time.Second) // at most 10 % (RFC9111 §4.2.2), never rounded up
 }
 
 // calculateCurrentAge implements RFC9111 §4.2.3 for calculating the current age of a cached response
